@@ -73,6 +73,14 @@ claimed = {
    text="Stateless model checking of the real generated code under a controlled scheduler: the emitted server and client files are instrumented at source level (sync -> scheduler-aware shim, a scheduling point before every statement touching a written shared location), and every interleaving of 2 and 3 concurrent calls with at most 2 (quick) / 3 (thorough) preemptions is executed (DFS over choice prefixes, replay-deterministic), for every unordered pair of a per-unit call alphabet and for triples; each execution is checked for co-enabled conflicting accesses (data race), deadlock, panic and for per-call observations equal to the isolated execution; plus all call sequences up to depth 2/3 versus isolated execution. A free-running -race build of the same bodies is run as a supplementary (sampled) pass.",
    note="Granularity: statements of the emitted files; third-party libraries and sub-statement memory-model effects are not modelled (the -race pass samples those). Locations with no write site anywhere in the emitted code get no scheduling points (they cannot race); the instrumenter lists what it instrumented in the evidence.",
    tech="stateless model checking: controlled scheduler with preemption-bounded DFS over real generated code", ref="DESIGN.md section 8 C17 and appendix C"),
+ "C08": dict(
+   text="Every enumerated, TypeScript-expressible request/response value of every RPC of the REST, query, path-kind, header, multi-service and codec units is exchanged in all three pairings - emitted TS client -> generated Go server, generated Go client -> emitted TS server (routed by the emitted RouteDescriptors), TS client -> TS server - with the TS artefacts executed under node 22 and the Go artefacts in the harness; the oracle is that the handler of the same RPC receives the caller's request and the caller receives the handler's response; every typed header option of both clients is driven with a marker and must set a declared header.",
+   note="Calls are staged (record / serve / finish), equivalent to live calls because the generated clients are stateless between request and response. Values outside JS number precision and non-finite floats are excluded. Module loading itself is C13.",
+   tech="exhaustive enumeration of values x pairings executed on the real TS (node) and Go artefacts", ref="DESIGN.md section 8 C08"),
+ "C03": dict(
+   text="F-route (base path x method configuration, path shapes x verbs, method-name shapes on default routes, query parameters on body verbs) plus the core units: for each RPC five observations are taken from the real artefacts (both clients via two probe requests with distinctive values, TS RouteDescriptors, OpenAPI operation, Go server dispatch of every artefact's concrete request) and compared pairwise for verb, path template and field placement; each RPC must be exactly one OpenAPI operation. Exhaustive over the bounded route-configuration space.",
+   note="Templates are compared modulo variable names; a 400 from the Go server counts as routed (refusals are C01/C02's subject).",
+   tech="exhaustive enumeration of route configurations, differential comparison of five generators' observable routes", ref="DESIGN.md section 8 C03"),
 }
 NA_REASON = "check not built yet (build in progress; see DESIGN.md section 14)"
 checks = []
